@@ -213,7 +213,7 @@ theorem reach_of_lookup_none {α : Type} {g : Graph α} {s n : String} (h : Reac
 
 theorem any_filterMap_single (f : Item → Option Range) (it : Item) (q : Pfx) :
     ([it].filterMap f).any (·.mem q) = true ↔ ∃ r, f it = some r ∧ r.mem q = true := by
-  cases h : f it <;> simp [List.filterMap_cons, h]
+  cases h : f it <;> simp [h]
 
 /-- what one expanded route-set leaf contributes -/
 theorem leaf_ranges (cfg : Cfg) (db : Db) (l : RsLeaf) (q : Pfx) (hq : q.Valid)
